@@ -234,5 +234,29 @@ CHECKS['C13'] = dict(
           '(comments on infix-anchored nodes move), F16 (comment splits a restricted production). Repo fix: CaseBlock comments.'),
 )
 
-NOT_APPLICABLE = {p: PENDING for p in ['C01', 'C02', 'C03', 'C07',
+_PRINT_TEXT = ('For every production (array literals with elisions excepted) and every child-shape and list length, the node built by the '
+               'real action prints, through the real definitions/handlers of this printer configuration, exactly the production\'s own '
+               'terminals and its children in source order, up to the licensed normalisations (automatic semicolon written out, trailing '
+               'object-literal comma, %s). By induction the printed token sequence of any tree is the token sequence it was parsed from; '
+               'with parser determinism the re-parse gives the same tree PROVIDED adjacent tokens do not fuse and no line break changes '
+               'the parse -- that adjacency part is only a bounded stand-in (token-text variations over all productions), hence "other".')
+CHECKS['C02'] = dict(
+    engine='E2 tables + E4',
+    level='other',
+    ref='DESIGN.md 4 (C02)',
+    technique='deductive per grammar production x minifier configuration (real actions, real definitions, real handlers on tagged slots; structural induction) for token order/presence; token fusion and semicolon dropping by bounded round trip with diagnosed signatures',
+    text=_PRINT_TEXT % 'a statement terminator dropped at the very end under drop_semi',
+    note=('Trusted: parser determinism; this parser stands in for "any conforming ES5 parser". Known findings F7 (fusions), F8 (1 .y), '
+          'F9 (while body semicolon).'),
+)
+CHECKS['C01'] = dict(
+    engine='E2 tables + E4',
+    level='other',
+    ref='DESIGN.md 4 (C01)',
+    technique='deductive per grammar production under the pretty rule set (real actions, definitions, handlers; structural induction) for token order/presence; re-parse equality and print fixpoint by bounded round trip',
+    text=_PRINT_TEXT % 'none else for the pretty printer',
+    note=('Trusted: parser determinism; C20 (layout); "any conforming ES5 parser" not decidable here. Known finding F8p (1 .y).'),
+)
+
+NOT_APPLICABLE = {p: PENDING for p in ['C03', 'C07',
                                         'C19']}
